@@ -144,6 +144,41 @@ example : parseAssign [⟨false, some 0, true⟩, ⟨false, none, true⟩, ⟨fa
 example : parseAssign [⟨false, some 0, true⟩, ⟨true, none, true⟩, ⟨false, none, false⟩, ⟨false, some 1, true⟩, ⟨false, none, true⟩] =
     .ok [⟨false, 0, true⟩, ⟨true, 0, true⟩, ⟨false, 0, false⟩, ⟨false, 1, true⟩, ⟨false, 2, true⟩] := by decide
 
+/-- **written IDs of unnamed GLOBAL entities** (asm/module.go): the parser accepts a sequence of global definitions exactly when every written `@k` is
+    the number LLVM gives the entity (unnamed entities of all four kinds count 0, 1, 2, … in the order they are defined), and then it numbers them as LLVM
+    does. A second `@0`, a first `@1`, a gap: errors — none of them is renumbered (they used to be: known_findings.json, fixed) -/
+theorem globals_accept_exactly_llvm : ∀ (src : List SrcSlot) (next : Int), (∀ s ∈ src, s.counts = true) →
+    indexGlobalsFrom next src =
+      if LLVMSpec.agreesFrom next src then .ok (LLVMSpec.numberFrom next (src.map SrcSlot.toSlot)) else .error
+  | [], next, _ => by simp [indexGlobalsFrom, LLVMSpec.agreesFrom, LLVMSpec.numberFrom]
+  | s :: rest, next, hc => by
+    have hcs : s.counts = true := hc s (by simp)
+    have ih := fun n => globals_accept_exactly_llvm rest n (fun x hx => hc x (by simp [hx]))
+    obtain ⟨nm, wr, ct⟩ := s
+    simp only at hcs
+    subst hcs
+    cases nm with
+    | true =>
+      simp only [indexGlobalsFrom, LLVMSpec.agreesFrom, LLVMSpec.numberFrom, List.map_cons, SrcSlot.toSlot, if_true, Bool.not_true, Bool.false_or, ih next]
+      by_cases hA : LLVMSpec.agreesFrom next rest = true <;> simp [hA]
+    | false =>
+      simp only [indexGlobalsFrom, LLVMSpec.agreesFrom, LLVMSpec.numberFrom, List.map_cons, SrcSlot.toSlot, Bool.false_eq_true, if_false, Bool.not_true,
+        Bool.or_self, ih (next + 1)]
+      by_cases hw : (wr == none || wr == some next) = true
+      · simp only [hw, if_true, Bool.true_and]
+        by_cases hA : LLVMSpec.agreesFrom (next + 1) rest = true <;> simp [hA]
+      · have hw' : (wr == none || wr == some next) = false := by
+          cases h : (wr == none || wr == some next) with
+          | false => rfl
+          | true => exact absurd h hw
+        simp only [hw', Bool.false_eq_true, if_false, Bool.false_and]
+
+example : indexGlobals [⟨false, some 0, true⟩, ⟨false, some 0, true⟩] = .error := by decide
+example : indexGlobals [⟨false, some 5, true⟩] = .error := by decide
+/-- non-vacuity: written IDs, the empty name `@""` (no written ID) and named entities in one module -/
+example : indexGlobals [⟨false, some 0, true⟩, ⟨true, none, true⟩, ⟨false, none, true⟩, ⟨false, some 2, true⟩] =
+    .ok [⟨false, 0, true⟩, ⟨true, 0, true⟩, ⟨false, 1, true⟩, ⟨false, 2, true⟩] := by decide
+
 theorem numberFrom_length : ∀ (f : List Slot) (n : Int), (LLVMSpec.numberFrom n f).length = f.length
   | [], _ => rfl
   | s :: r, n => by unfold LLVMSpec.numberFrom; split <;> simp [numberFrom_length r]
